@@ -15,7 +15,7 @@ ID = "C11"
 BUDGET = {"quick": 520, "thorough": 14000}
 SOFT = {"quick": 50.0, "thorough": 900.0}
 CLASSES = ["box", "extrude", "revolve", "wedge", "cylinder", "semicylinder", "frustum", "frustum-mid", "elbow", "extrudedring",
-           "revolvedring", "hemisphere", "shell", "extrudedstack", "revolvedstack", "transformedstack",
+           "revolvedring", "hemisphere", "shell", "revolvedshape", "extrudedstack", "revolvedstack", "transformedstack",
            "sk:grid", "sk:onecore", "sk:fourcore", "sk:halfdisk", "sk:wrapped", "sk:oval", "sk:splinedisk", "sk:halfsplinedisk",
            "sk:quartersplinedisk", "sk:splinering", "ljoint", "tjoint", "njoint",
            "chain:cylinder", "chain:elbow", "chain:frustum", "chain:hemisphere", "chain:4", "ring:chain", "ring:expand", "ring:contract",
@@ -127,6 +127,14 @@ def build(case, cb):
         info["detail"] = n
         info["expect_vertices"] = 4 * n
         info["size"] = 3.0
+        return [sh], info
+    if cls == "revolvedshape":
+        sk = c09.make_sketch(rng.choice(["onecore", "fourcore", "oval"]), rng, o, fr, cb)
+        sh = cb.RevolvedShape(sk, rng.uniform(0.3, 1.0), list(fr[0] * 1.5), list(o - fr[1] * rng.uniform(4, 6)))
+        sh.chop(0, **kw(0.5))
+        sh.chop(1, **kw(0.5))
+        sh.chop(2, **kw(0.5))
+        info["size"] = 6.0
         return [sh], info
     if cls == "hemisphere":
         sh = cb.Hemisphere(list(o), list(rp), list(fr[2]))
@@ -374,6 +382,15 @@ def run_case(ctx, case):
     # (3) arcs on the intended circles
     for c, n, R in info["circles"]:
         c, n = np.array(c), geom.unit(n)
+        on_circle = [i for i in range(len(vpos)) if abs(np.linalg.norm(vpos[i] - c) - R) < 1e-6 * max(R, 1) and abs(np.dot(vpos[i] - c, n)) < 1e-6 * max(R, 1)]
+        arcs_here = 0
+        for e in parsed["edges"]:
+            if e["kind"] == "arc" and e["a"] in on_circle and e["b"] in on_circle:
+                arcs_here += 1
+        if len(on_circle) < 3 or arcs_here < 2:
+            ctx.violation(f"outer-rim-not-on-the-intended-circle:{cls}",
+                          f"{cls} seed {case['seed']}: intended circle centre {list(c)} radius {R}: {len(on_circle)} vertices and {arcs_here} arcs lie on it")
+            return
         for e in parsed["edges"]:
             if e["kind"] != "arc":
                 continue
